@@ -29,6 +29,103 @@ Proof. intros st st' o H. now inversion H. Qed.
 Lemma heap_const_grows : forall A (m : M A), heap_const m -> grows m.
 Proof. intros A m H st st' o E. exists []. rewrite app_nil_r. eapply H. eassumption. Qed.
 
+(* ---------------------------------------------------------------- operations that touch one object only
+   (object.__setattr__ in a user __post_init__ on the object under construction): every other cell is as before, the
+   cell keeps its kind and items, and its attributes outside N are as before *)
+Definition touched (r : nat) (N : list name) (h h' : heap) : Prop :=
+  List.length h' = List.length h /\
+  (forall q, q <> r -> nth_error h' q = nth_error h q) /\
+  (forall o, nth_error h r = Some o -> exists o', nth_error h' r = Some o' /\ o_kind o' = o_kind o /\ o_items o' = o_items o /\
+     forall n, ~ In n N -> lookup (o_attrs o') n = lookup (o_attrs o) n).
+Definition touches (r : nat) (N : list name) {A} (m : M A) : Prop :=
+  forall st st' o, m st = (st', o) -> touched r N (s_heap st) (s_heap st').
+
+Lemma touched_refl : forall r N h, touched r N h h.
+Proof. intros. split; [reflexivity|]. split; [reflexivity|]. intros o Ho. exists o. repeat split; auto. Qed.
+Lemma touched_trans : forall r N h1 h2 h3, touched r N h1 h2 -> touched r N h2 h3 -> touched r N h1 h3.
+Proof.
+  intros r N h1 h2 h3 [A1 [A2 A3]] [B1 [B2 B3]]. split; [congruence|]. split.
+  - intros q Hq. rewrite B2, A2; auto.
+  - intros o Ho. destruct (A3 o Ho) as [o2 [H1 [H2 [H3 H4]]]]. destruct (B3 o2 H1) as [o3 [G1 [G2 [G3 G4]]]].
+    exists o3. split; [assumption|]. split; [congruence|]. split; [congruence|]. intros n Hn. rewrite G4, H4; auto.
+Qed.
+Lemma touched_mono : forall r N N' h h', incl N N' -> touched r N h h' -> touched r N' h h'.
+Proof.
+  intros r N N' h h' Hi [A1 [A2 A3]]. split; [assumption|]. split; [assumption|].
+  intros o Ho. destruct (A3 o Ho) as [o2 [H1 [H2 [H3 H4]]]]. exists o2. repeat split; try assumption.
+  intros n Hn. apply H4. intro X. apply Hn. now apply Hi.
+Qed.
+
+Lemma touches_ret : forall r N A (a : A), touches r N (ret a).
+Proof. intros r N A a st st' o H. inversion H. apply touched_refl. Qed.
+Lemma touches_raise : forall r N A e, touches r N (@raise A e).
+Proof. intros r N A e st st' o H. inversion H. apply touched_refl. Qed.
+Lemma touches_bind : forall r N A B (m : M A) (f : A -> M B),
+  touches r N m -> (forall a, touches r N (f a)) -> touches r N (bindM m f).
+Proof.
+  intros r N A B m f Hm Hf st st' o H. unfold bindM in H. destruct (m st) as [s1 [a|e]] eqn:E.
+  - eapply touched_trans; [eapply Hm; eassumption|eapply Hf; eassumption].
+  - inversion H. subst. eapply Hm. eassumption.
+Qed.
+Lemma touches_heap_const : forall r N A (m : M A), heap_const m -> touches r N m.
+Proof. intros r N A m H st st' o E. rewrite (H _ _ _ E). apply touched_refl. Qed.
+Lemma touches_mono : forall r N N' A (m : M A), incl N N' -> touches r N m -> touches r N' m.
+Proof. intros r N N' A m Hi H st st' o E. eapply touched_mono; [eassumption|eapply H; eassumption]. Qed.
+
+Lemma heap_upd_length : forall h r g, List.length (heap_upd h r g) = List.length h.
+Proof. induction h as [|o h IH]; intros [|r] g; simpl; auto. Qed.
+Lemma heap_upd_other : forall h r g q, q <> r -> nth_error (heap_upd h r g) q = nth_error h q.
+Proof.
+  induction h as [|o h IH]; intros [|r] g [|q] Hq; simpl; try reflexivity; try congruence.
+  apply IH. congruence.
+Qed.
+Lemma heap_upd_same : forall h r g, nth_error (heap_upd h r g) r = option_map g (nth_error h r).
+Proof. induction h as [|o h IH]; intros [|r] g; simpl; try reflexivity. apply IH. Qed.
+
+Lemma touches_set_attr_raw : forall r n v, touches r [n] (set_attr_raw r n v).
+Proof.
+  intros r n v st st' o H. unfold set_attr_raw in H. inversion H. subst. clear H. cbn [s_heap].
+  split; [apply heap_upd_length|]. split; [intros q Hq; now apply heap_upd_other|].
+  intros o1 Ho. rewrite heap_upd_same, Ho. simpl. eexists. split; [reflexivity|]. repeat split.
+  intros m Hm. simpl. rewrite lookup_dict_set. destruct (Nat.eqb n m) eqn:E; [|reflexivity].
+  apply Nat.eqb_eq in E. subst. exfalso. apply Hm. now left.
+Qed.
+
+(* two lists with the same cells are the same list *)
+Lemma nth_error_all_eq : forall A (a b : list A), (forall q, nth_error a q = nth_error b q) -> a = b.
+Proof.
+  induction a as [|x a IH]; intros [|y b] H.
+  - reflexivity.
+  - specialize (H O). discriminate.
+  - specialize (H O). discriminate.
+  - pose proof (H O) as H0. simpl in H0. inversion H0. subst. f_equal. apply IH. intro q. exact (H (S q)).
+Qed.
+
+(* the touched object is the last cell *)
+Lemma touched_last : forall N H o h',
+  touched (List.length H) N (H ++ [o]) h' ->
+  exists o', h' = H ++ [o'] /\ o_kind o' = o_kind o /\ o_items o' = o_items o /\
+             forall n, ~ In n N -> lookup (o_attrs o') n = lookup (o_attrs o) n.
+Proof.
+  intros N H o h' [A1 [A2 A3]].
+  assert (Ho : nth_error (H ++ [o]) (List.length H) = Some o) by (rewrite nth_error_app2, Nat.sub_diag by lia; reflexivity).
+  destruct (A3 o Ho) as [o' [H1 [H2 [H3 H4]]]]. exists o'. split; [|repeat split; assumption].
+  apply nth_error_all_eq. intro q. destruct (Nat.eq_dec q (List.length H)) as [->|Hq].
+  - rewrite H1. rewrite nth_error_app2, Nat.sub_diag by lia. reflexivity.
+  - rewrite (A2 q Hq). destruct (Nat.lt_ge_cases q (List.length H)) as [Hlt|Hge].
+    + now rewrite !nth_error_app1 by assumption.
+    + assert (q > List.length H) by lia.
+      transitivity (@None obj); [|symmetry]; apply nth_error_None; rewrite app_length; simpl; lia.
+Qed.
+
+(* the names a __post_init__ attribute can assign *)
+Fixpoint pi_sets (f : pifun) : list name :=
+  match f with
+  | PFUser _ b _ sup => body_names b ++ pi_sets sup
+  | PFNew old => pi_sets old
+  | _ => []
+  end.
+
 Section Generic.
   Variable P : prog.
   Variable check : bool -> heap -> ann -> value -> outcome unit.
@@ -45,30 +142,102 @@ Section Generic.
     intros. unfold validate_types. destruct (has_meth P MValidateTypes); [|apply hc_raise].
     destruct (nearest_deco C); [apply hc_check_loop|apply hc_raise].
   Qed.
-  Lemma hc_run_steps : forall old (val : bool -> M unit) vis, heap_const old -> (forall b, heap_const (val b)) ->
-    forall steps ctxv, heap_const (run_steps old val vis ctxv steps).
+
+  Lemma pi_sets_resolve : forall C, incl (pi_sets (resolve_pi P C)) (hook_set_names C).
   Proof.
-    intros old val vis Ho Hv. induction steps as [|s steps IH]; intro ctxv; simpl; [apply hc_ret|].
-    destruct s.
-    - apply hc_bind; [assumption|intro; apply IH].
-    - apply IH.
-    - destruct ctxv; [|apply hc_raise]. apply hc_bind; [apply Hv|intro; apply IH].
+    induction C as [|L C IH]; [intros x []|]. cbn [resolve_pi hook_set_names flat_map].
+    assert (H : incl (pi_sets (match l_pi L with
+                               | Some b => PFUser (l_id L) b (decorated L && eff_slots P L) (resolve_pi P C)
+                               | None => resolve_pi P C end))
+                     ((match l_pi L with Some b => body_names b | None => [] end) ++ hook_set_names C)).
+    { destruct (l_pi L) as [b|]; cbn [pi_sets app].
+      - apply incl_app; [apply incl_appl, incl_refl|apply incl_appr, IH].
+      - exact IH. }
+    destruct (ts_installed P L); [|exact H]. cbn [pi_sets].
+    destruct (l_pi L) as [b|]; [exact H|]. destruct (resolve_pi P C); exact H.
   Qed.
-  Lemma hc_run_pi : forall (val : bool -> M unit), (forall b, heap_const (val b)) ->
-    forall f v outer, heap_const (run_pi P f v outer val).
+
+  Lemma touches_obj_setattr : forall C r n v N, In n N -> touches r N (obj_setattr P C r n v).
   Proof.
-    intros val Hv. induction f as [| |c b|old IH]; intros v outer; simpl.
-    - apply hc_raise.
-    - apply hc_ret.
-    - apply hc_bind; [apply hc_emit|intro; destruct b; [apply hc_ret|apply hc_raise]].
-    - destruct (p_ts P); [|apply hc_ret]. apply hc_run_steps; [apply IH|assumption].
+    intros C r n v N Hn. unfold obj_setattr. destruct (has_dict P C || mem n (field_names C)); [|apply touches_raise].
+    eapply touches_mono; [|apply touches_set_attr_raw]. intros x [<-|[]]. assumption.
+  Qed.
+  Lemma touches_run_body : forall C r N (sup : M unit) slots, touches r N sup ->
+    forall body, incl (body_names (mkPib body None)) N ->
+    touches r N (run_body (obj_setattr P C r) sup slots body).
+  Proof.
+    intros C r N sup slots Hs. induction body as [|s body IH]; intro Hi; [apply touches_ret|].
+    destruct s as [n v|]; cbn [run_body].
+    - apply touches_bind.
+      + apply touches_obj_setattr. apply Hi. unfold body_names. simpl. now left.
+      + intros _. apply IH. intros x Hx. apply Hi. unfold body_names in *. simpl. now right.
+    - apply touches_bind; [destruct slots; [apply touches_raise|exact Hs]|].
+      intros _. apply IH. intros x Hx. apply Hi. unfold body_names in *. simpl. exact Hx.
+  Qed.
+  Lemma touches_run_steps : forall r N old (val : bool -> M unit) vis, touches r N old -> (forall b, heap_const (val b)) ->
+    forall steps ctxv, touches r N (run_steps old val vis ctxv steps).
+  Proof.
+    intros r N old val vis Ho Hv. induction steps as [|s steps IH]; intro ctxv; simpl; [apply touches_ret|].
+    destruct s.
+    - apply touches_bind; [assumption|intro; apply IH].
+    - apply IH.
+    - destruct ctxv; [|apply touches_raise]. apply touches_bind; [apply touches_heap_const, Hv|intro; apply IH].
+  Qed.
+  Lemma touches_run_pi : forall C r (val : bool -> M unit), (forall b, heap_const (val b)) ->
+    forall f v outer, touches r (pi_sets f) (run_pi P f v outer val (obj_setattr P C r)).
+  Proof.
+    intros C r val Hv. induction f as [| |c b slots sup IH|old IH]; intros v outer; cbn [run_pi pi_sets].
+    - apply touches_raise.
+    - apply touches_ret.
+    - apply touches_bind; [apply touches_heap_const, hc_emit|intros _].
+      apply touches_bind.
+      + apply touches_run_body.
+        * eapply touches_mono; [|apply IH]. apply incl_appr, incl_refl.
+        * unfold body_names. simpl. apply incl_appl, incl_refl.
+      + intros _. unfold end_of. destruct (pb_raise b); [apply touches_raise|apply touches_ret].
+    - destruct (p_ts P); [|apply touches_ret]. apply touches_run_steps; [apply IH|assumption].
+  Qed.
+
+  (* construction: __init__ allocates (the candidate is the last cell), __post_init__ touches the candidate only *)
+  Lemma construct_shape : forall v C kw st st' o,
+    construct P check v C kw st = (st', o) ->
+    (exists e, o = Raise e /\ exists ext, s_heap st' = s_heap st ++ ext) \/
+    exists attrs attrs' ext,
+      build_attrs (dc_fields C) kw st = (mkSt (s_heap st ++ ext) (s_journal st), Ok attrs) /\
+      s_heap st' = (s_heap st ++ ext) ++ [mkObj (KData (class_id C)) [] attrs'] /\
+      (forall r', o = Ok r' -> r' = List.length (s_heap st ++ ext)) /\
+      (forall n, ~ In n (hook_set_names C) -> lookup attrs' n = lookup attrs n) /\
+      kw_unexpected (dc_fields C) kw = false /\ kw_missing (dc_fields C) kw = false.
+  Proof.
+    intros v C kw st st' o H. unfold construct in H. unfold bindM at 1 in H.
+    destruct (candidate C kw st) as [s1 [r|e]] eqn:Ec.
+    - right. destruct (candidate_spec _ _ _ _ _ Ec) as [D [attrs [ext [HD [HB [Hh [Hr [Hj [Hu Hm]]]]]]]]].
+      rewrite HD in H.
+      assert (Ht : touched r (hook_set_names C) (s_heap s1) (s_heap st') /\ (forall r', o = Ok r' -> r' = r)).
+      { destruct (init_calls_pi P D).
+        - unfold bindM in H.
+          destruct (run_pi P (resolve_pi P C) v 0 (fun vis => validate_types P check vis C r) (obj_setattr P C r) s1)
+            as [s2 [[]|e]] eqn:Er.
+          + unfold ret in H. inversion H as [[Ha Hb]]. split; [|intros r' X; now inversion X].
+            rewrite <- Ha. eapply touched_mono; [apply pi_sets_resolve|].
+            eapply (touches_run_pi C r (fun vis => validate_types P check vis C r)); [intro; apply hc_validate|eassumption].
+          + inversion H as [[Ha Hb]]. split; [|intros r' X; discriminate].
+            rewrite <- Ha. eapply touched_mono; [apply pi_sets_resolve|].
+            eapply (touches_run_pi C r (fun vis => validate_types P check vis C r)); [intro; apply hc_validate|eassumption].
+        - unfold ret in H. inversion H as [[Ha Hb]]. split; [apply touched_refl|intros r' X; now inversion X]. }
+      destruct Ht as [Ht Hr'].
+      rewrite Hh, Hr in Ht. destruct (touched_last _ _ _ _ Ht) as [o' [E1 [E2 [E3 E4]]]].
+      destruct o' as [k' it' attrs']. simpl in *. subst k' it'.
+      exists attrs, attrs', ext. split; [assumption|]. split; [assumption|].
+      split; [intros r' X; rewrite (Hr' r' X); assumption|]. repeat split; assumption.
+    - left. inversion H. subst. exists e. split; [reflexivity|]. eapply grows_candidate. eassumption.
   Qed.
 
   Lemma grows_construct : forall v C kw, grows (construct P check v C kw).
   Proof.
-    intros. unfold construct. apply grows_bind; [apply grows_candidate|intro r].
-    destruct (nearest_deco C); [|apply grows_ret]. destruct (init_calls_pi P c); [|apply grows_ret].
-    apply grows_bind; [|intro; apply grows_ret]. apply heap_const_grows, hc_run_pi. intro. apply hc_validate.
+    intros v C kw st st' o H. destruct (construct_shape _ _ _ _ _ _ H) as [[e [_ Hx]]|[attrs [attrs' [ext [_ [Hh _]]]]]].
+    - exact Hx.
+    - rewrite Hh, <- app_assoc. eexists. reflexivity.
   Qed.
   Lemma hc_replace_changes : forall fs r kw ch, heap_const (replace_changes fs r kw ch).
   Proof.
@@ -103,27 +272,20 @@ Section Generic.
   Lemma grows_run_path : forall C p, grows (run_path P check C p).
   Proof. intros C [kw|r kw|r kw]; simpl; [apply grows_construct|apply grows_copy_with|apply grows_deep_copy_with]. Qed.
 
-  (* the instance a successful construction returns: fresh, of class C, attributes as built by __init__ *)
+  (* the instance a successful construction returns: fresh, of class C, attributes as built by __init__ except
+     for the names a user-written __post_init__ of the hierarchy assigns *)
   Lemma construct_result : forall v C kw st st' r',
     construct P check v C kw st = (st', Ok r') ->
-    exists attrs ext,
+    exists attrs attrs' ext,
       build_attrs (dc_fields C) kw st = (mkSt (s_heap st ++ ext) (s_journal st), Ok attrs) /\
-      s_heap st' = (s_heap st ++ ext) ++ [mkObj (KData (class_id C)) [] attrs] /\
+      s_heap st' = (s_heap st ++ ext) ++ [mkObj (KData (class_id C)) [] attrs'] /\
       r' = List.length (s_heap st ++ ext) /\
+      (forall n, ~ In n (hook_set_names C) -> lookup attrs' n = lookup attrs n) /\
       kw_unexpected (dc_fields C) kw = false /\ kw_missing (dc_fields C) kw = false.
   Proof.
-    intros v C kw st st' r' H. unfold construct in H. unfold bindM at 1 in H.
-    destruct (candidate C kw st) as [s1 [r|e]] eqn:Ec; [|discriminate].
-    destruct (candidate_spec _ _ _ _ _ Ec) as [D [attrs [ext [HD [HB [Hh [Hr [Hj [Hu Hm]]]]]]]]].
-    exists attrs, ext. rewrite HD in H.
-    assert (Hs : s_heap st' = s_heap s1 /\ r' = r).
-    { destruct (init_calls_pi P D).
-      - unfold bindM in H.
-        destruct (run_pi P (resolve_pi P C) v 0 (fun vis => validate_types P check vis C r) s1) as [s2 [[]|e]] eqn:Er; [|discriminate].
-        unfold ret in H. inversion H as [[Ha Hb]]. split; [|reflexivity].
-        eapply (hc_run_pi (fun vis => validate_types P check vis C r)); [intro; apply hc_validate|]. rewrite <- Ha. eassumption.
-      - unfold ret in H. inversion H as [[Ha Hb]]. split; reflexivity. }
-    destruct Hs as [Hs1 Hs2]. subst r'. rewrite Hs1. repeat split; assumption.
+    intros v C kw st st' r' H. destruct (construct_shape _ _ _ _ _ _ H) as [[e [X _]]|[attrs [attrs' [ext [A [B [C0 [D0 [E0 F0]]]]]]]]].
+    - discriminate.
+    - exists attrs, attrs', ext. repeat split; try assumption. now apply C0.
   Qed.
 End Generic.
 
@@ -293,6 +455,12 @@ Proof.
   rewrite A. now rewrite <- !app_assoc.
 Qed.
 
+(* the region in which every assignment / deletion is rejected: the instance's own class is decorated, or the name is a
+   field, or some class of the hierarchy was decorated with slots=True (its __setattr__ fails in super(), CPython 3.12) *)
+Definition frozen_guard (P : prog) (C : chain) (n : name) : bool :=
+  match C with [] => false | L :: _ => decorated L end
+  || mem n (field_names C) || existsb (fun L => decorated L && eff_slots P L) C.
+
 (* ---------------------------------------------------------------- the two copy methods (reference program) *)
 Section Copy.
   Variable defs : list (dparam * bool).
@@ -307,13 +475,14 @@ Section Copy.
     copy_with P check C r kw st = (st', Ok r') ->
     let h := s_heap st in let h' := s_heap st' in
     preserved h h' /\ List.length h <= r' /\ class_of h' r' = Some (class_id C) /\
-    (forall f, In f (dc_fields C) -> f_init f = true ->
+    (forall f, In f (dc_fields C) -> f_init f = true -> ~ In (f_name f) (hook_set_names C) ->
        getattr h' r' (f_name f) = expected_field kw h r (f_name f) /\ getattr h' r' (f_name f) <> None) /\
     (forall f, In f (dc_fields C) -> f_init f = false ->
        lookup kw (f_name f) = None /\
-       (forall v, f_default f = DVal v -> getattr h' r' (f_name f) = Some v) /\
-       (forall k, f_default f = DFactory k -> exists q, getattr h' r' (f_name f) = Some (VRef q) /\
-            List.length h <= q /\ nth_error h' q = Some (mkObj k [] []))) /\
+       (~ In (f_name f) (hook_set_names C) ->
+        (forall v, f_default f = DVal v -> getattr h' r' (f_name f) = Some v) /\
+        (forall k, f_default f = DFactory k -> exists q, getattr h' r' (f_name f) = Some (VRef q) /\
+             List.length h <= q /\ nth_error h' q = Some (mkObj k [] [])))) /\
     (forall n, lookup kw n <> None -> exists f, In f (dc_fields C) /\ f_init f = true /\ f_name f = n).
   Proof.
     intros C r kw st st' r' H h h'. subst h h'.
@@ -323,14 +492,14 @@ Section Copy.
     rewrite (nearest_deco_fields _ _ HD) in H. unfold bindM at 1 in H.
     destruct (replace_changes (dc_fields C) r kw kw st) as [s1 [ch|e]] eqn:Er; [|discriminate].
     destruct (replace_changes_spec _ _ _ _ _ _ _ Er) as [Hs1 [RA [RB [RC RD]]]]. subst s1.
-    destruct (construct_result P check _ _ _ _ _ _ H) as [attrs [ext [HB [Hh [Hr [Hu Hm]]]]]].
+    destruct (construct_result P check _ _ _ _ _ _ H) as [attrs [attrs' [ext [HB [Hh [Hr [Hk [Hu Hm]]]]]]]].
     destruct (build_attrs_spec _ _ _ _ _ HB (dc_fields_nodup C)) as [BN BF].
-    assert (Hget : forall n, getattr (s_heap st') r' n = lookup attrs n).
-    { intro n. rewrite Hh, Hr. apply getattr_new. }
+    assert (Hget : forall n, ~ In n (hook_set_names C) -> getattr (s_heap st') r' n = lookup attrs n).
+    { intros n Hn. rewrite Hh, Hr, getattr_new. simpl. now apply Hk. }
     split; [exists extT; exact HT|]. split; [subst r'; rewrite app_length; lia|]. split.
     { unfold class_of. rewrite Hh, Hr. rewrite nth_error_app2, Nat.sub_diag by lia. reflexivity. }
     split; [|split].
-    - intros f Hf Hi. destruct (BF f Hf) as [B1 [B2 _]]. rewrite Hget. unfold expected_field.
+    - intros f Hf Hi Hnh. destruct (BF f Hf) as [B1 [B2 _]]. rewrite (Hget _ Hnh). unfold expected_field.
       destruct (lookup kw (f_name f)) as [v|] eqn:El.
       + assert (Hc : lookup ch (f_name f) = Some v) by (rewrite RA; [assumption|congruence]).
         rewrite (B1 Hi v Hc). split; [reflexivity|discriminate].
@@ -340,9 +509,9 @@ Section Copy.
     - intros f Hf Hi. destruct (BF f Hf) as [_ [_ [B3 B4]]].
       assert (Hn : f_init f && is_some (lookup ch (f_name f)) = false) by (rewrite Hi; reflexivity).
       specialize (RD f Hf Hi). apply mem_false in RD.
-      split; [now apply lookup_none_notin|]. split.
-      + intros v Hv. rewrite Hget. now apply B3.
-      + intros k Hk. destruct (B4 Hn k Hk) as [q [Q1 [Q2 Q3]]]. exists q. rewrite Hget. split; [assumption|].
+      split; [now apply lookup_none_notin|]. intro Hnh. split.
+      + intros v Hv. rewrite (Hget _ Hnh). now apply B3.
+      + intros k Hk'. destruct (B4 Hn k Hk') as [q [Q1 [Q2 Q3]]]. exists q. rewrite (Hget _ Hnh). split; [assumption|].
         split; [exact Q2|]. rewrite Hh. simpl in Q3. rewrite nth_error_app1; [assumption|].
         apply nth_error_Some. congruence.
     - intros n Hn. unfold kw_unexpected in Hu.
@@ -392,7 +561,7 @@ Section Copy.
     r < List.length (s_heap st) -> NoDup (map fst kw) ->
     let h := s_heap st in let h' := s_heap st' in
     preserved h h' /\ List.length h <= r' /\ class_of h' r' = Some (class_id C) /\
-    (forall f, In f (dc_fields C) -> f_init f = true ->
+    (forall f, In f (dc_fields C) -> f_init f = true -> ~ In (f_name f) (hook_set_names C) ->
        match lookup kw (f_name f) with
        | Some v => getattr h' r' (f_name f) = Some v
        | None => exists v v', getattr h r (f_name f) = Some v /\ getattr h' r' (f_name f) = Some v' /\
@@ -400,9 +569,10 @@ Section Copy.
        end) /\
     (forall f, In f (dc_fields C) -> f_init f = false ->
        lookup kw (f_name f) = None /\
-       (forall v, f_default f = DVal v -> getattr h' r' (f_name f) = Some v) /\
-       (forall k, f_default f = DFactory k -> exists q, getattr h' r' (f_name f) = Some (VRef q) /\
-            List.length h <= q /\ nth_error h' q = Some (mkObj k [] []))) /\
+       (~ In (f_name f) (hook_set_names C) ->
+        (forall v, f_default f = DVal v -> getattr h' r' (f_name f) = Some v) /\
+        (forall k, f_default f = DFactory k -> exists q, getattr h' r' (f_name f) = Some (VRef q) /\
+             List.length h <= q /\ nth_error h' q = Some (mkObj k [] [])))) /\
     (forall n, lookup kw n <> None -> exists f, In f (dc_fields C) /\ f_init f = true /\ f_name f = n).
   Proof.
     intros C r kw st st' r' H Hr Hnd h h'. subst h h'.
@@ -419,10 +589,10 @@ Section Copy.
     destruct (current_values_spec _ _ _ _ _ _ Hr Hst Ec) as [CV1 CV2].
     destruct (grows_current_values P _ _ _ _ _ Ec) as [e1 He1].
     set (args := dict_merge cur kw) in *.
-    destruct (construct_result P check _ _ _ _ _ _ H) as [attrs [ext [HB [Hh [Hr' [Hu Hm]]]]]].
+    destruct (construct_result P check _ _ _ _ _ _ H) as [attrs [attrs' [ext [HB [Hh [Hr' [Hkk [Hu Hm]]]]]]]].
     destruct (build_attrs_spec _ _ _ _ _ HB (dc_fields_nodup C)) as [BN BF].
-    assert (Hget : forall n, getattr (s_heap st') r' n = lookup attrs n).
-    { intro n. rewrite Hh, Hr'. apply getattr_new. }
+    assert (Hget : forall n, ~ In n (hook_set_names C) -> getattr (s_heap st') r' n = lookup attrs n).
+    { intros n Hn. rewrite Hh, Hr', getattr_new. simpl. now apply Hkk. }
     assert (Largs : forall n, lookup args n = match lookup kw n with Some v => Some v | None => lookup cur n end).
     { intro n. unfold args. now apply lookup_dict_merge. }
     split; [exists extT; exact HT|]. split; [subst r'; rewrite app_length, He1, app_length; lia|]. split.
@@ -438,7 +608,7 @@ Section Copy.
         { apply existsb_exists. exists (n, v). split; [assumption|]. simpl. now rewrite E1. }
         congruence. }
     split; [|split; [|exact Hkw]].
-    - intros f Hf Hi. destruct (BF f Hf) as [B1 _]. rewrite Hget.
+    - intros f Hf Hi Hnh. destruct (BF f Hf) as [B1 _]. rewrite (Hget _ Hnh).
       destruct (lookup kw (f_name f)) as [v|] eqn:El.
       + apply (B1 Hi). rewrite Largs, El. reflexivity.
       + assert (Hin : In (f_name f) (map fst cur)).
@@ -463,9 +633,9 @@ Section Copy.
           - exfalso. apply Hx. rewrite <- G3. now apply in_map.
           - now apply IH. }
         subst g. congruence. }
-      split; [assumption|]. split.
-      + intros v Hv. rewrite Hget. now apply B3.
-      + intros k Hk'. destruct (B4 Hn k Hk') as [q [Q1 [Q2 Q3]]]. exists q. rewrite Hget. split; [assumption|].
+      split; [assumption|]. intro Hnh. split.
+      + intros v Hv. rewrite (Hget _ Hnh). now apply B3.
+      + intros k Hk'. destruct (B4 Hn k Hk') as [q [Q1 [Q2 Q3]]]. exists q. rewrite (Hget _ Hnh). split; [assumption|].
         split; [rewrite He1, app_length in Q2; lia|]. rewrite Hh. simpl in Q3. rewrite nth_error_app1; [assumption|].
         apply nth_error_Some. congruence.
   Qed.
@@ -486,6 +656,32 @@ Section Copy.
     intros L rest n HL. simpl. rewrite HL. change (eff_frozen P L) with true. simpl.
     destruct (negb (eff_slots P L) || mem n (field_names (L :: rest))) eqn:E; [reflexivity|].
     apply orb_false_iff in E as [E1 _]. apply negb_false_iff in E1. now rewrite E1.
+  Qed.
+
+  (* ---- which assignments the generated __setattr__ / __delattr__ chain lets through to object.__setattr__ *)
+  Lemma setattr_chain_slots : forall C n top,
+    existsb (fun L => decorated L && eff_slots P L) C = true -> setattr_chain P top C n <> SAObject.
+  Proof.
+    induction C as [|L C IH]; intros n top H; [discriminate|]. simpl in H. simpl setattr_chain.
+    destruct (decorated L) eqn:HL; simpl in *.
+    - change (eff_frozen P L) with true. cbv iota.
+      destruct ((top && negb (eff_slots P L)) || mem n (field_names (L :: C))); [discriminate|].
+      destruct (eff_slots P L); [discriminate|]. simpl in H. now apply IH.
+    - now apply IH.
+  Qed.
+  Lemma field_names_rest : forall L rest n, mem n (field_names (L :: rest)) = false -> mem n (field_names rest) = false.
+  Proof.
+    intros L rest n H. apply mem_false. apply mem_false in H. intro X. apply H.
+    destruct (decorated L) eqn:HL; [now apply dc_fields_inherited|]. unfold field_names in *. simpl. now rewrite HL.
+  Qed.
+  Lemma setattr_chain_open : forall C n, mem n (field_names C) = false ->
+    existsb (fun L => decorated L && eff_slots P L) C = false -> setattr_chain P false C n = SAObject.
+  Proof.
+    induction C as [|L C IH]; intros n Hm Hs; [reflexivity|]. simpl in Hs. apply orb_false_iff in Hs as [Hs1 Hs2].
+    simpl setattr_chain. destruct (decorated L) eqn:HL; simpl in *.
+    - change (eff_frozen P L) with true. cbv iota. rewrite Hm, Hs1. simpl.
+      apply IH; [eapply field_names_rest; eassumption|assumption].
+    - apply IH; [eapply field_names_rest; eassumption|assumption].
   Qed.
 End Copy.
 
